@@ -452,6 +452,8 @@ use {debug_detail, man_link, new_flag, syscall};
 
 /// Lock `mutex` clearing any poison set.
 fn lock<'a, T>(mutex: &'a std::sync::Mutex<T>) -> std::sync::MutexGuard<'a, T> {
+    #[cfg(a10_verif)]
+    crate::verif::before_lock(mutex);
     match mutex.lock() {
         Ok(guard) => guard,
         Err(err) => {
@@ -464,6 +466,8 @@ fn lock<'a, T>(mutex: &'a std::sync::Mutex<T>) -> std::sync::MutexGuard<'a, T> {
 /// Same as [`lock`], but doesn't block if the mutex is locked.
 #[cfg(any(target_os = "android", target_os = "linux"))]
 fn try_lock<'a, T>(mutex: &'a std::sync::Mutex<T>) -> Option<std::sync::MutexGuard<'a, T>> {
+    #[cfg(a10_verif)]
+    crate::verif::sync_point(crate::verif::SYNC_TRY_LOCK, std::ptr::from_ref(mutex));
     match mutex.try_lock() {
         Ok(guard) => Some(guard),
         Err(std::sync::TryLockError::Poisoned(err)) => {
